@@ -22,8 +22,13 @@ func sameData(a, b *DemuxerData) bool {
 		return false
 	}
 	if a.PES != nil {
+		afa, afb := a.FirstPacket.AdaptationField, b.FirstPacket.AdaptationField
+		if (afa == nil) != (afb == nil) || (afa != nil && !vBytesEq(afa.TransportPrivateData, afb.TransportPrivateData)) {
+			return false
+		}
 		return vBytesEq(a.PES.Data, b.PES.Data) && a.PES.Header.StreamID == b.PES.Header.StreamID &&
-			a.PES.Header.OptionalHeader.PTS.Base == b.PES.Header.OptionalHeader.PTS.Base
+			a.PES.Header.OptionalHeader.PTS.Base == b.PES.Header.OptionalHeader.PTS.Base &&
+			vBytesEq(a.PES.Header.OptionalHeader.PrivateData, b.PES.Header.OptionalHeader.PrivateData)
 	}
 	if a.SDT != nil {
 		return a.SDT.TransportStreamID == b.SDT.TransportStreamID && a.SDT.OriginalNetworkID == b.SDT.OriginalNetworkID && len(a.SDT.Services) == len(b.SDT.Services)
